@@ -29,13 +29,25 @@ def _r(name: str, *scopes: Sequence[str]) -> Scoped:
     return name, merged
 
 
+S_COMPUTE = ("compute.",)
+S_MODEL = ("model.",)
+S_DP = ("utils.dynamic_programming:",)
+S_TREES = ("utils.trees:",)
+S_RENDER = ("render.",)
+S_CLI = ("cli.",)
+# functions a plain / ordered / unordered solve goes through (for the effect rules)
+P_THL = S_THL + S_MODEL + S_DP + S_TREES
+P_SPFS = S_SPFS + S_MODEL + S_DP + S_TREES + S_SUBSEQ + ("utils.toposort:", "compute.reconciliation:reconcile_lca")
+P_USPFS = S_USPFS + S_MODEL + S_DP + S_TREES + ("compute.reconciliation:reconcile_lca",)
+P_SOLVE = S_COMPUTE + S_MODEL + S_DP + S_TREES + S_SUBSEQ + ("utils.toposort:",)
+
 PROPERTY_RULES: Dict[str, List[Scoped]] = {
     "C01": [
         _r("COSTKEYS", S_THL), _r("PRUNE", S_THL), _r("EVENT-SIG", S_THL), _r("CLASS-DOMAIN", S_THL),
         _r("MIRROR", S_THL), _r("COMBINE-ORIENT", S_THL), _r("INFO-KEY", S_THL), _r("DECODE-GUARD", S_THL),
         _r("DECODE-COMPLETE", S_THL), _r("DECODE-PRODUCT", S_THL), _r("LEAF-ANCHOR", S_THL),
         _r("RESULT-SCOPE", S_THL), _r("TRAVERSAL", ("compute.reconciliation:_compute_thl",)),
-        _r("POLICY-FLOW", S_THL),
+        _r("POLICY-FLOW", S_THL), _r("EVENT-TABLE"), _r("SOLVER-STATELESS", P_THL), _r("RECURSE-FORWARD", S_THL),
     ],
     "C02": [
         _r("SENTINEL", S_SPFS, S_SUBSEQ), _r("COSTKEYS", S_SPFS), _r("PRUNE", S_SPFS), _r("EVENT-SIG", S_SPFS),
@@ -43,6 +55,7 @@ PROPERTY_RULES: Dict[str, List[Scoped]] = {
         _r("SIBLING-PAIRING", S_SPFS), _r("DECODE-GUARD", S_SPFS), _r("DECODE-COMPLETE", S_SPFS),
         _r("DECODE-PRODUCT", S_SPFS), _r("LEAF-ANCHOR", S_SPFS), _r("RESULT-SCOPE", S_SPFS),
         _r("TRAVERSAL", S_SPFS), _r("GRAPH-KEYS", S_SPFS), _r("BASE-EXT-SHARE", S_SPFS), _r("POLICY-FLOW", S_SPFS),
+        _r("SOLVER-STATELESS", P_SPFS), _r("READONLY-GRAPH"),
     ],
     "C03": [
         _r("READONLY-DECODE", S_USPFS), _r("COSTKEYS", S_USPFS), _r("PRUNE", S_USPFS), _r("EVENT-SIG", S_USPFS),
@@ -50,49 +63,68 @@ PROPERTY_RULES: Dict[str, List[Scoped]] = {
         _r("SIBLING-PAIRING", S_USPFS), _r("DECODE-GUARD", S_USPFS), _r("DECODE-COMPLETE", S_USPFS),
         _r("DECODE-PRODUCT", S_USPFS), _r("LEAF-ANCHOR", S_USPFS), _r("RESULT-SCOPE", S_USPFS),
         _r("TRAVERSAL", S_USPFS), _r("BASE-EXT-SHARE", S_USPFS), _r("POLICY-FLOW", S_USPFS),
+        _r("DECODE-CONTENT-FLOW"), _r("SOLVER-STATELESS", P_USPFS),
     ],
     "C04": [
         _r("DECODE-GUARD"), _r("DECODE-COMPLETE"), _r("LEAF-ANCHOR"), _r("SENTINEL"), _r("READONLY-DECODE"),
-        _r("COMBINE-ORIENT"), _r("INFO-KEY"), _r("CLASS-DOMAIN"), _r("EVENT-EXHAUSTIVE"),
+        _r("COMBINE-ORIENT"), _r("INFO-KEY"), _r("CLASS-DOMAIN"), _r("EVENT-EXHAUSTIVE"), _r("EVENT-TABLE"),
+        _r("DECODE-CONTENT-FLOW"),
     ],
     "C05": [
         _r("POLICY-FLOW"), _r("DECODE-PRODUCT"), _r("RESULT-SCOPE"), _r("PRUNE"), _r("UPDATE-PAIRING"),
         _r("RETENTION-GUARDS"), _r("COMBINE-PRODUCT"),
+        # the retained set is the optimal set only if the table prices every candidate as the evaluator does,
+        # offers every candidate family, and decodes what it priced
+        _r("EVENT-SIG"), _r("COSTKEYS"), _r("CLASS-DOMAIN"), _r("MIRROR"), _r("INFO-KEY"), _r("COMBINE-ORIENT"),
+        _r("DECODE-CONTENT-FLOW"), _r("READONLY-DECODE"), _r("SOLVER-STATELESS", P_SOLVE),
     ],
     "C06": [
-        _r("MODEL-TABLE"), _r("LABEL-SIBLINGS"), _r("EVENT-EXHAUSTIVE"), _r("TRAVERSAL", S_EVAL),
-        _r("CLI-COST-SOURCE"),
+        _r("MODEL-TABLE"), _r("LABEL-SIBLINGS"), _r("EVENT-EXHAUSTIVE"), _r("EVENT-TABLE"), _r("CONSERVED-SIDE"),
+        _r("TRAVERSAL", S_EVAL), _r("CLI-COST-SOURCE"), _r("COST-PASSTHROUGH", S_CLI),
+        _r("SOLVER-STATELESS", S_MODEL + S_TREES + S_SUBSEQ),
     ],
     "C07": [
         _r("LCA-PROPAGATE"), _r("TRAVERSAL", ("compute.reconciliation:reconcile_lca",)),
+        _r("SOLVER-STATELESS", ("compute.reconciliation:reconcile_lca", "utils.trees:LowestCommonAncestor", "utils.trees:_euler", "utils.range_min_query:")),
     ],
     "C08": [
         _r("TREE-WRITE-ARGS"), _r("FIELDS-SERIALISED"), _r("DICT-KEYS"), _r("FEATURE-COPY"),
         _r("RESULT-SCOPE", S_SPFS, S_USPFS), _r("LABEL-PASS", ("compute.",)),
         _r("FRESH-ATTACH", ("utils.trees:graft", "utils.trees:arrange_leaves", "utils.trees:binarize")),
-        _r("TRAVERSAL", ("utils.trees:binarize",)),
+        _r("TRAVERSAL", ("utils.trees:binarize",)), _r("RECURSE-FORWARD", S_TREES), _r("LABEL-GUARD"),
     ],
-    "C09": [_r("MIRROR"), _r("CLASS-DOMAIN")],
-    "C10": [_r("BASE-EXT-SHARE")],
-    "C11": [_r("DICT-KEYS"), _r("FIELDS-SERIALISED"), _r("TREE-WRITE-ARGS"), _r("ENUM-DISJOINT"), _r("MAPPING-KEYING")],
+    "C09": [
+        _r("MIRROR"), _r("CLASS-DOMAIN"), _r("COST-HOMOGENEOUS"), _r("READONLY-DECODE"),
+        _r("SOLVER-STATELESS", P_SOLVE),
+    ],
+    "C10": [
+        _r("BASE-EXT-SHARE"), _r("EVENT-SIG"), _r("COSTKEYS"), _r("SIBLING-PAIRING"), _r("READONLY-DECODE"),
+        _r("SOLVER-STATELESS", P_SOLVE),
+    ],
+    "C11": [
+        _r("DICT-KEYS"), _r("FIELDS-SERIALISED"), _r("TREE-WRITE-ARGS"), _r("ENUM-DISJOINT"), _r("MAPPING-KEYING"),
+        _r("COST-PASSTHROUGH", S_MODEL), _r("SOLVER-STATELESS", S_MODEL + S_TREES),
+    ],
     "C12": [
         _r("LABEL-PASS", ("cli.",)), _r("LABEL-GUARD"), _r("REGISTRY-SIGNATURE"), _r("CHOICES-ENUM"),
-        _r("ERROR-PATH"), _r("COST-OPTIONS"), _r("CLI-COST-SOURCE"),
+        _r("ERROR-PATH"), _r("COST-OPTIONS"), _r("CLI-COST-SOURCE"), _r("COST-PASSTHROUGH"), _r("DISPATCH-KEYS"),
     ],
     "C13": [
         _r("KIND-EXHAUSTIVE"), _r("KIND-AGREE"), _r("ONE-EVENT-NODE"), _r("ONE-ARROW"), _r("LOSS-MARKERS"),
-        _r("STYLE-DEFINED"), _r("MEASURE-LOCKSTEP"),
+        _r("STYLE-DEFINED"), _r("MEASURE-LOCKSTEP"), _r("IDENTITY-KEYS"), _r("SOLVER-STATELESS", S_RENDER),
     ],
-    "C14": [_r("SIGMA-INVARIANCE"), _r("SIGMA-CLOSURE")],
+    "C14": [_r("SIGMA-INVARIANCE"), _r("SIGMA-CLOSURE"), _r("SOLVER-STATELESS", ("render.layout:", "utils.geometry:"))],
     "C15": [
         _r("TEMPLATE-BRACES"), _r("TEMPLATE-TERMINATED"), _r("PICTURE-ENV"), _r("COLOR-INTERN"),
         _r("ESCAPE-TAINT"), _r("ESCAPE-ORDER"), _r("LABEL-OMIT"), _r("PREORDER-STATE", ("render.",)),
+        _r("COLOR-SOURCE"), _r("WRAP-DISCIPLINE"),
     ],
     "C16": [_r("UPDATE-PAIRING"), _r("RETENTION-GUARDS"), _r("POLARITY"), _r("PROXY-NONE"), _r("COMBINE-PRODUCT")],
-    "C19": [_r("RESTORE-PAIRING"), _r("FRESH-STARTS"), _r("INDEG-INIT"), _r("GRAPH-KEYS")],
+    "C19": [_r("RESTORE-PAIRING"), _r("FRESH-STARTS"), _r("INDEG-INIT"), _r("GRAPH-KEYS"), _r("READONLY-GRAPH")],
     "C20": [
         _r("COPY-BEFORE-MUTATE"),
         _r("FRESH-ATTACH", ("utils.trees:tree_", "utils.trees:all_trees", "utils.trees:trees_")),
+        _r("GROUPS-PAIRING"), _r("LEAVES-SOURCE"),
     ],
 }
 
